@@ -85,6 +85,73 @@ def efun_inventory(repo):
     return out
 
 
+# ---------------------------------------------------------------------------
+# translator, part 2 (gen_extra): the guard lines of the C code that the model mirrors.  Each site is located in the
+# current source by a regular expression that fixes the operator, the operands and the order of the statements; the
+# number of matches must be the expected one, captured constants go to NV/Gen/C04.lean (the model uses them, the
+# bridging lemmas of NV/C04/Props.lean are obligations).  A site that no longer matches breaks the tie.
+W = r"\s*"
+SITES = [
+    # name, file, regex, expected matches, name of the captured constant (or None)
+    ("stackSlackSrc", "src/stack.c", r"end_of_stack = start_of_stack \+ size - (\d+);", 1, "stackSlackSrc"),
+    ("stackCheck", "src/interpret.h", r"if \(sp \+ n >= end_of_stack\)" + W + r"\\?" + W + r"\{ set_error_state\(ES_STACK_FULL\); error", 1, None),
+    ("checkAndPush", "src/stack.c", r"if \(\(sp \+= n\) >= end_of_stack\)" + W + r"\\?" + W + r"\{ sp -= n; set_error_state\(ES_STACK_FULL\); error", 1, None),
+    ("depthTestFrame", "src/frame.c", r"if \(csp == &control_stack\[CONFIG_INT \(__MAX_CALL_DEPTH__\) - (\d+)\]\)" + W + r"\{" + W + r"error_state \|= ES_STACK_FULL;" + W + r"error", 1, "depthTestOffset"),
+    ("depthTestFake", "lib/lpc/functional.c", r"if \(csp == &control_stack\[CONFIG_INT \(__MAX_CALL_DEPTH__\) - (\d+)\]\)" + W + r"\{" + W + r"set_error_state\(ES_STACK_FULL\);" + W + r"error", 1, "depthTestOffsetFake"),
+    ("depthTestContext", "src/error_context.c", r"if \(csp == &control_stack\[CONFIG_INT \(__MAX_CALL_DEPTH__\) - (\d+)\]\)" + W + r"\{[^}]*return 0;", 1, "depthTestOffsetContext"),
+    ("cspIncrements", "src/frame.c", r"csp\+\+;", 1, None),
+    ("evalTick", "src/interpret.c", r"if \(!--eval_cost\)" + W + r"\{.{0,400}?set_error_state \(ES_MAX_EVAL_COST\);" + W + r"eval_cost = CONFIG_INT \(__MAX_EVAL_COST__\);" + W + r"error \(\"\*Too long evaluation", 2, None),
+    ("popContextClears", "src/error_context.c", r"current_error_context = econ->save_context;" + W + r"clear_error_state \(\);", 1, None),
+    ("catchKeepsCostBit", "src/frame.c", r"if \(get_error_state \(ES_MAX_EVAL_COST\)\)" + W + r"\{" + W + r"pop_context \(&econ\);" + W + r"(?:/\*.*?\*/)?" + W + r"set_error_state \(ES_MAX_EVAL_COST\);" + W + r"error", 1, None),
+    ("catchKeepsFullBit", "src/frame.c", r"if \(get_error_state \(ES_STACK_FULL\)\)" + W + r"\{" + W + r"pop_context \(&econ\);" + W + r"set_error_state \(ES_STACK_FULL\);" + W + r"error", 1, None),
+    ("handlerKeepsState", "src/error_context.c", r"int limit_state = get_error_state \(ES_STACK_FULL \| ES_MAX_EVAL_COST\);.{0,300}?mudlib_error_handler \(err, [01]\);.{0,120}?set_error_state \(limit_state\);", 2, None),
+    ("safeApplyOneTick", "src/apply.c", r"restore_context \(&econ\);.{0,400}?if \(get_error_state \(ES_MAX_EVAL_COST\)\)" + W + r"eval_cost = (\d+);", 1, "safeTickLeft"),
+    ("safeFunpOneTick", "lib/lpc/functional.c", r"restore_context \(&econ\);.{0,400}?if \(get_error_state \(ES_MAX_EVAL_COST\)\)" + W + r"eval_cost = (\d+);", 1, "safeTickLeftFunp"),
+    ("clampConfig", "lib/rc/rc.cpp", r"if \(CONFIG_INT \(__MAX_EVAL_COST__\) < (\d+)\)" + W + r"CONFIG_INT \(__MAX_EVAL_COST__\) = \1;", 1, "clampMin"),
+    ("clampEfun", "lib/efuns/unsorted.c", r"if \(CONFIG_INT \(__MAX_EVAL_COST__\) < (\d+)\)" + W + r"CONFIG_INT \(__MAX_EVAL_COST__\) = \1;", 1, "clampMinEfun"),
+    ("backendResets", "src/backend.c", r"eval_cost = CONFIG_INT \(__MAX_EVAL_COST__\);", 5, None),
+    ("callbackTick", "src/interpret.c", r"svalue_t\* call_efun_callback \(function_to_call_t \* ftc, int n\) \{.{0,700}?if \(!--eval_cost\)", 1, None),
+    ("allocArrayGuard", "lib/lpc/array.c", r"if \(n > \(size_t\)CONFIG_INT \(__MAX_ARRAY_SIZE__\)\)" + W + r"error \(\"Illegal array size", 2, None),
+    ("arraySizeCast", "lib/lpc/array.c", r"p->size = \(unsigned short\)n;", 2, None),
+    ("addArrayGuard", "lib/lpc/array.c", r"res = p->size \+ r->size;" + W + r"if \(res < 0 \|\| res > CONFIG_INT \(__MAX_ARRAY_SIZE__\)\)" + W + r"error", 1, None),
+    ("explodeClamp", "lib/lpc/array.c", r"if \(num > CONFIG_INT \(__MAX_ARRAY_SIZE__\)\)" + W + r"\{" + W + r"num = CONFIG_INT \(__MAX_ARRAY_SIZE__\);", 1, None),
+    ("implodeGuard", "lib/lpc/array.c", r"if \(size \+ \(num - 1\) \* del_len > \(size_t\)CONFIG_INT \(__MAX_STRING_LENGTH__\)\)" + W + r"error", 1, None),
+    ("bufferGuard", "lib/lpc/buffer.c", r"if \(size > \(size_t\)CONFIG_INT \(__MAX_BUFFER_SIZE__\)\)" + W + r"\{" + W + r"error", 1, None),
+    ("bufferSizeCast", "lib/lpc/buffer.c", r"buf->size = \(unsigned short\)size;", 1, None),
+    ("mapInsertGuard", "lib/lpc/mapping.c", r"if \(\+\+m->count > CONFIG_INT \(__MAX_MAPPING_SIZE__\)\)" + W + r"\{" + W + r"m->count--;" + W + r"mapping_too_large \(\);", 1, None),
+    ("mapCountGuards", "lib/lpc/mapping.c", r"if \(\+\+count > CONFIG_INT \(__MAX_MAPPING_SIZE__\)\)", 4, None),
+    ("mapAbsorbErrorPath", "lib/lpc/mapping.c", r"if \(count -= m1->count \+ 1\)" + W + r"\{[^}]*\}" + W + r"m1->count \+= count;" + W + r"mapping_too_large \(\);", 2, None),
+    ("mapAbsorbEnd", "lib/lpc/mapping.c", r"if \(count -= m1->count\)" + W + r"\{[^}]*\}" + W + r"m1->count \+= count;" + W + r"\}", 2, None),
+    ("joinGuardDef", "src/interpret.h", r"if \(\(len\) > \(size_t\)CONFIG_INT \(__MAX_STRING_LENGTH__\)\)" + W + r"\\" + W + r"error", 1, None),
+    ("joinGuardUses", "src/interpret.h", r"CHECK_STRING_JOIN_LENGTH\((?:ess|pss|ssj)_len\);", 3, None),
+    ("repeatGuard", "lib/efuns/string.c", r"if \(count <= 0\).{0,600}?if \(len == 0\)" + W + r"return;.{0,200}?if \(repeat > \(size_t\)CONFIG_INT \(__MAX_STRING_LENGTH__\) / len\)" + W + r"error", 1, None),
+    ("replaceSkipGuard", "lib/efuns/string.c", r"if \(\(size_t\)CONFIG_INT \(__MAX_STRING_LENGTH__\) - dlen <= skip\).{0,400}?dlen \+= skip;", 1, None),
+    ("sprintfFinalGuard", "lib/efuns/sprintf.c", r"if \(obuff.real_size > \(size_t\)CONFIG_INT \(__MAX_STRING_LENGTH__\)\)" + W + r"sprintf_error \(ERR_BUFF_OVERFLOW\);", 1, None),
+    ("rangeClamp", "lib/lpc/operator.c", r"if \(from < 0\)" + W + r"from = 0;" + W + r"if \(to >= v->size\)" + W + r"to = v->size - 1;" + W + r"if \(to < -1\)" + W + r"to = -1;" + W + r"if \(from > v->size\)" + W + r"from = v->size;", 1, None),
+]
+
+
+def gen_sites(repo):
+    """locate every site; returns (lean text, {constant: value}, report); raises TieBroken"""
+    import re
+    from nvlib import extract as X
+    consts, report, lines = {}, [], ["", "/-! guard sites located in the source by props/c04.py (SITES): name, file, matches -/"]
+    for name, rel, rx, want, cname in SITES:
+        text = open(os.path.join(repo, rel), errors="replace").read()
+        ms = list(re.finditer(rx, text, flags=re.S))
+        if len(ms) != want:
+            raise X.TieBroken("site:" + name, "guard site `%s` of %s: expected %d match(es) of /%s/, found %d - the line the model mirrors was changed" % (name, rel, want, rx, len(ms)))
+        report.append((name, rel, want))
+        lines.append("/-- %s: %d site(s) -/\ndef site_%s : Nat := %d" % (rel, want, name, want))
+        if cname:
+            vals = set(m.group(1) for m in ms)
+            if len(vals) != 1:
+                raise X.TieBroken("site:" + name, "guard site `%s`: the captured constants differ: %s" % (name, sorted(vals)))
+            consts[cname] = int(vals.pop())
+            lines.append("/-- constant of the guard `%s` in %s -/\ndef %s : Nat := %d" % (name, rel, cname, consts[cname]))
+    return "\n".join(lines) + "\n", consts, report
+
+
 BASE_CONF = "MaxCallDepth 200\nStackSize 2000\n"
 
 
@@ -258,7 +325,9 @@ class C04(Prop):
                 "NV.C04.catch_reraises_limit_error", "NV.C04.eval_bounded", "NV.C04.eval_bounded_exact",
                 "NV.C04.eval_bounded_of_pos", "NV.C04.depth_bounded", "NV.C04.stack_checked_pushes_bounded",
                 "NV.C04.sizes_bounded", "NV.C04.replace_scan_in_bounds", "NV.C04.sprintf_bounded",
-                "NV.C04.array_size_exact"]
+                "NV.C04.array_size_exact", "NV.C04.sizes_bounded_derived", "NV.C04.map_count_exact",
+                "NV.C04.bridge_stackSlack", "NV.C04.bridge_depthTest", "NV.C04.bridge_clamp", "NV.C04.bridge_safeTick",
+                "NV.C04.bridge_esBits", "NV.C04.bridge_widths"]
     witness_theorems = ["NV.C04.eval_unbounded_at_zero_budget", "NV.C04.eval_bound_attained_through_safe_apply",
                         "NV.C04.sprintf_exceeds_small_limit", "NV.C04.array_size_wraps",
                         "NV.C04.buffer_size_wraps", "NV.C04.repeat_string_old_wraps"]
@@ -301,6 +370,11 @@ class C04(Prop):
         self.conf = E.make_mudlib(ctx.rundir, master="/c04/master.c", extra_conf=BASE_CONF)
         self.idx = dict(getattr(ctx, "gen_vals", {}) or {})
         self.raw = {}
+
+    def gen_extra(self, ctx, bdir):
+        text, consts, report = gen_sites(E.REPO)
+        self.site_report = report
+        return text
 
     def extra_checks(self, ctx, tier, rng):
         inv = efun_inventory(E.REPO)
